@@ -43,6 +43,9 @@ pub fn run_serializer<T: Serialize>(name: &str, v: &T) -> Result<SerOut, String>
 }
 
 pub fn generate(rng: &mut Rng, _tier: &str) -> Scenario {
+    if rng.chance(1, 8) {
+        return crate::realfam::generate("C07", rng);
+    }
     let cfg = GenCfg::swarm(rng);
     let mut g = Gen::new(rng, cfg);
     let ty = g.ty(0, Pos::Root);
@@ -78,6 +81,10 @@ pub fn count_ser_calls(sc: &Scenario) -> u32 {
 
 pub fn execute(sc: &Scenario, verbose: bool) -> RunOut {
     let mut out = RunOut::default();
+    if sc.workload == "R" {
+        crate::realfam::execute("C07", sc, verbose, &mut out);
+        return out;
+    }
     let ty = &sc.ty;
     let val = sc.val.as_ref().expect("C07 scenario without value");
     let must = must_succeed(ty, val);
